@@ -105,7 +105,9 @@ def copies(E, s):
             key = tuple(slice(1, None) if m >= 2 else slice(None) for m in s['M']) + key if s['presliced'] == 'offset' else tuple(slice(None, None, 2) for m in s['M']) + key
         x = x[key]
         xc = list(x.cores)
-    xd = dense(E, xc)
+    if s.get('watched') is not None:
+        E.tt.grad.watch(x, s['watched']) if s['watched'] else E.tt.grad.watch(x)
+    xd = dense(E, [c.detach() for c in xc]) if s.get('watched') is not None else dense(E, xc)
     op = s['op']
     if op == 'clone':
         y = x.clone()
@@ -152,6 +154,7 @@ def copies(E, s):
         E.eq('value', dense(E, y.cores), xd)
     E.true('new_object', y is not x and y.cores is not x.cores)
     if op == 'clone':
-        for c in y.cores:
-            c[...] = 0
-        E.eq('no_shared_storage', dense(E, x.cores), xd)
+        with tn.no_grad():
+            for c in y.cores:
+                (c.detach() if s.get('watched') is not None else c)[...] = 0
+        E.eq('no_shared_storage', dense(E, [c.detach() for c in x.cores]), xd)
